@@ -303,12 +303,18 @@ def check(case):
 
 
 def roundtrip(case, file):
-    from mxlpy import sbml
-
     cls = law_class(case["law"])
     nontrivial = not (case["coef"] == "one" and case["derived"] == "none" and case["ia"] == "none" and case["law"] == 0 and case["names"] == "plain")
-    m1, nm = build_model(case)
+    m1, _nm = build_model(case)
     txt = f"law=`{(LAWS + BODIES)[case['law']][0]}` ({cls}) shape={case}"
+    return _roundtrip_model(m1, file, cls, nontrivial, txt, generation=1)
+
+
+def _roundtrip_model(m1, file, cls, nontrivial, txt, generation):
+    """write -> read -> compare. The model that comes back is a surrogate-free model too: after a successful first
+    generation it is written and read once more and must survive that just the same (generation 2)."""
+    from mxlpy import sbml
+
     try:
         sbml.write(m1, file)
     except Exception as exc:  # noqa: BLE001
@@ -316,7 +322,7 @@ def roundtrip(case, file):
         if supported:
             return outcome(False, "export-raised-for-supported", symptom=f"export-raised:{type(exc).__name__}", nontrivial=nontrivial,
                            detail=f"{type(exc).__name__}: {exc} | {txt}")
-        return outcome(True, "export-refused", nontrivial=nontrivial)
+        return outcome(True, "export-refused" if generation == 1 else "roundtrip-equal-second-export-refused", nontrivial=nontrivial)
     try:
         try:
             m2 = sbml.read(file)
@@ -348,7 +354,7 @@ def roundtrip(case, file):
                                detail=f"initial {v}: {ic2[v]} expected {val} | {txt}")
         v1 = m1.get_variable_names()
         for st in STATES:
-            s1 = dict(zip(v1, st, strict=True))
+            s1 = dict(zip(v1, list(st) + [1.5] * len(v1), strict=False))
             s2 = {v: s1.get(v, ic2[v]) for v in m2.get_variable_names()}
             # species amounts kept by the importer follow the concentration (compartment size 1)
             for v in s2:
@@ -374,6 +380,13 @@ def roundtrip(case, file):
                 if not _close(float(r2[v]), float(r1[v])):
                     return outcome(False, "different", symptom="different:derivative", nontrivial=nontrivial,
                                    detail=f"d{v}/dt at {s1}: {r2[v]} expected {r1[v]} | {txt}")
+        if generation == 1:
+            again = _roundtrip_model(m2, file.with_name(file.stem + "_g2.xml"), "may", nontrivial, "[second generation: the re-imported model written and read again] " + txt, generation=2)
+            if not again["ok"]:
+                again["symptom"] = f"generation2:{again['symptom']}"
+                return again
+            if again["cls"] != "roundtrip-equal":
+                return again
         return outcome(True, "roundtrip-equal", nontrivial=nontrivial)
     finally:
         try:
